@@ -166,6 +166,31 @@ pub fn run_c04(ctx: &Ctx, rep: &mut Report) {
             rep.sample(J::obj(vec![("layout", J::s(format!("{:?}", layout))), ("features", J::s(format!("{:?}", feat))), ("paths", J::Arr(model.all_paths().iter().take(12).map(|(p, _)| J::s(p.clone())).collect()))]));
         }
         // 2. mutate it afterwards with the C01/C02/C03 monitors attached
+        if big && layout.spare_difat && !truncated {
+            // a spare DIFAT sector at the end of the chain: grow the file until a FAT sector
+            // is appended (its DIFAT entry must go where its index says), then look at the
+            // stored bytes
+            let r = guard::catch(|| -> Result<(), Fail> {
+                let mut sess = Session::open_bytes(bytes.clone(), Mode::Permissive, None, model.clone()).map_err(|e| ("open | rejected a valid layout".to_string(), format!("{e}")))?;
+                for st in [Step::HOpen { slot: 0, path: "/fill".into(), how: engine::OpenHow::Create }, Step::HWriteAll { slot: 0, len: 140_000 }, Step::HClose { slot: 0 }] {
+                    if let Some(d) = sess.run(&st) {
+                        return Err((d.signature.clone(), format!("growing a file with a spare DIFAT sector: {}: expected {}, observed {}", d.step, d.expected, d.observed)));
+                    }
+                }
+                let exp = sess.model.dump();
+                let stored = sess.shared.bytes();
+                for mode in [Mode::Strict, Mode::Permissive] {
+                    let obs = engine::dump_bytes(&stored, mode).map_err(|w| (format!("after growth | reopen {:?} | open failed", mode), format!("file with a spare DIFAT sector, grown by 140000 bytes: {w}")))?;
+                    engine::dumps_match(&exp, &obs).map_err(|w| (format!("after growth | reopen {:?} | state differs", mode), w))?;
+                }
+                Ok(())
+            });
+            match r {
+                Ok(Ok(())) => rep.count("spare_difat_grown_and_reopened"),
+                Ok(Err((sig, d))) => rep.finding(sig, d, input_witness(vec![])),
+                Err(p) => rep.finding(p.signature(), format!("panic at {}:{}: {}", p.file, p.line, p.message), input_witness(vec![])),
+            }
+        }
         if (big && ctx.quick()) || truncated {
             continue;
         }
